@@ -17,6 +17,9 @@ func init() {
 	c11.Harnesses = append(c11.Harnesses, &HarnessSpec{Name: "verifHarnessC11Jitter", Pkg: "client/setec", Stubs: clientStubs, Params: map[string]int{}, ExpectReach: []string{"end"}, Solver: "cvc5-int",
 		ModelOnlyLabels: map[string]string{"within-ten-percent": "the counterexample fixes the result of math/rand.Intn, which the native run cannot control"},
 		Desc: "run(): ticker period = interval + jitter with |jitter| <= interval/10 for every 64-bit interval in [5ns, 2^62ns) and every rand.Intn result (bit-vector arithmetic incl. signed division by 10)"})
+	c11.Harnesses = append(c11.Harnesses, &HarnessSpec{Name: "verifHarnessC11RunLoop", Pkg: "client/setec", Stubs: clientStubs, Params: map[string]int{"ticks": 2}, ThoroughParams: map[string]int{"ticks": 4},
+		ExpectReach: []string{"end"}, NoNative: "the ticker and the poller's context are environment channels on a ghost schedule",
+		Desc: "Store.run: exactly one poll per tick, tick acknowledged, poll errors do not stop the loop, cancellation ends it with a cache flush"})
 	c11.Bounds["poll interval"] = "5 ns <= interval < 2^62 ns (outside: rand.Intn(0) panics below 5 ns, 2*interval overflows above)"
 	propRegistry = append(propRegistry, c11)
 	c19 := &Property{ID: "C19", Pkgs: []string{"client/setec"}, Bounds: map[string]string{"names in the store": "2 / 3", "time": "any instants within +-2^40 s, ages any int64 ns"}}
@@ -117,6 +120,7 @@ func init() {
 	hb.UnwindFn = map[string]int{"(*github.com/tailscale/setec/client/setec.Store).lookupSecretInternal": 4}
 	c16.Harnesses = append(c16.Harnesses,
 		ch("verifHarnessC16Lookup", map[string]int{"names": 2}, map[string]int{"names": 3}, []string{"end-installed", "end-failed", "end-known", "end-disabled"}, "LookupSecret: gate, single flight per name, install exactly the served value, no retry"),
+		ch("verifHarnessC16LookupWatcher", map[string]int{"names": 2}, map[string]int{"names": 3}, []string{"end-ok", "end-failed", "end-disabled"}, "NewUpdater/lookupWatcher for known and unknown names: lock balanced around the lookup, watcher registered, disabled lookup is an error without a request"),
 		ch("verifHarnessC16SecretGate", map[string]int{"names": 2}, map[string]int{"names": 3}, []string{"end"}, "Secret panics iff unknown and lookups disabled; never a request"),
 		hb)
 	propRegistry = append(propRegistry, c16)
